@@ -7,6 +7,8 @@ package main
 // short reads, filter-process through the pkt-line client, git add/checkout).
 
 import (
+	"encoding/base64"
+	"compress/gzip"
 	"bytes"
 	"encoding/json"
 	"fmt"
@@ -34,7 +36,121 @@ type filterCase struct {
 	Delivery string `json:"delivery"`
 	Frontend string `json:"frontend"`
 	Wt       string `json:"wt"`
+	Ext      string `json:"ext"` // pointer extensions configured: none | rot13 | gzip | base64 | rot13+gzip
 	Branch   string `json:"branch"`
+}
+
+// ---- pointer extensions (docs/extensions.md) ------------------------------------------------
+// Each extension class is a chain of programs; undo is the inverse of the clean program, computed
+// here in Go so that the oracle does not depend on the programs' exact output bytes.
+type extProg struct {
+	name, clean, smudge string
+	undo                func([]byte) ([]byte, error)
+	redo                func([]byte) []byte // nil: output not reproducible here (only allowed for the last of a chain)
+}
+
+func rot13(b []byte) []byte {
+	o := make([]byte, len(b))
+	for i, c := range b {
+		switch {
+		case c >= 'a' && c <= 'z':
+			c = 'a' + (c-'a'+13)%26
+		case c >= 'A' && c <= 'Z':
+			c = 'A' + (c-'A'+13)%26
+		}
+		o[i] = c
+	}
+	return o
+}
+
+var extProgs = map[string]extProg{
+	"rot13": {"rot", "/usr/bin/tr A-Za-z N-ZA-Mn-za-m", "/usr/bin/tr A-Za-z N-ZA-Mn-za-m",
+		func(b []byte) ([]byte, error) { return rot13(b), nil }, rot13},
+	"gzip": {"zip", "/usr/bin/gzip -n -c", "/usr/bin/gzip -d -c", func(b []byte) ([]byte, error) {
+		zr, err := gzip.NewReader(bytes.NewReader(b))
+		if err != nil {
+			return nil, err
+		}
+		return io.ReadAll(zr)
+	}, nil},
+	"base64": {"b64", "/usr/bin/base64", "/usr/bin/base64 -d", func(b []byte) ([]byte, error) {
+		return base64.StdEncoding.DecodeString(strings.ReplaceAll(string(b), "\n", ""))
+	}, nil},
+}
+
+func extChain(class string) []extProg {
+	var out []extProg
+	if class == "" || class == "none" {
+		return nil
+	}
+	for _, n := range strings.Split(class, "+") {
+		out = append(out, extProgs[n])
+	}
+	return out
+}
+
+// checkExtPointer judges the clean output for content cleaned through a chain of extensions: ""
+// if it is what docs/extensions.md prescribes, else what is wrong.  It returns the object's id.
+func checkExtPointer(cleaned, input []byte, chain []extProg, objects map[string][]byte) (string, string) {
+	lines := strings.Split(string(cleaned), "\n")
+	if len(lines) < 4 || lines[len(lines)-1] != "" || lines[0] != "version https://git-lfs.github.com/spec/v1" {
+		return "", "not a pointer in canonical form"
+	}
+	lines = lines[1 : len(lines)-1]
+	var oid string
+	var size int
+	if _, err := fmt.Sscanf(lines[len(lines)-2]+" "+lines[len(lines)-1], "oid sha256:%64s size %d", &oid, &size); err != nil || len(oid) != 64 {
+		return "", "oid / size lines missing or out of place"
+	}
+	stored, ok := objects[filepath.Join(oid[0:2], oid[2:4], oid)]
+	if !ok {
+		return oid, "no object under the pointer's id in local storage"
+	}
+	if core.Sha(stored) != oid || len(stored) != size {
+		return oid, fmt.Sprintf("the pointer says (%s, %d), the stored object is (%s, %d)", oid[:12], size, core.Sha(stored)[:12], len(stored))
+	}
+	// undoing the chain on the stored object gives the input
+	v := stored
+	for i := len(chain) - 1; i >= 0; i-- {
+		u, err := chain[i].undo(v)
+		if err != nil {
+			return oid, fmt.Sprintf("the stored object is not the output of extension %s: %v", chain[i].name, err)
+		}
+		v = u
+	}
+	if !bytes.Equal(v, input) {
+		return oid, "undoing the extensions on the stored object does not give the input"
+	}
+	// one line per extension, naming the hash of that extension's input; pass-through ones may be left out
+	extLines := lines[:len(lines)-2]
+	in := input
+	k := 0
+	for i, e := range chain {
+		// the number in the key gives the order of invocation: the documentation numbers its example by
+		// priority; when a pass-through extension is left out, counting the written lines is as good
+		want := fmt.Sprintf("ext-%d-%s sha256:%s", i, e.name, core.Sha(in))
+		alt := fmt.Sprintf("ext-%d-%s sha256:%s", k, e.name, core.Sha(in))
+		var outp []byte
+		if e.redo != nil {
+			outp = e.redo(in)
+		}
+		switch {
+		case k < len(extLines) && (extLines[k] == want || extLines[k] == alt):
+			k++
+		case outp != nil && bytes.Equal(outp, in):
+			// pass-through: the line may be omitted
+		default:
+			return oid, fmt.Sprintf("line %q missing or different (extension lines: %q)", want, extLines)
+		}
+		if outp == nil && i != len(chain)-1 {
+			return oid, "harness: unreproducible extension in the middle of a chain"
+		}
+		in = outp
+	}
+	if k != len(extLines) {
+		return oid, fmt.Sprintf("unexpected extension lines %q", extLines[k:])
+	}
+	return oid, ""
 }
 
 func canonPointer(oid string, size int) string {
@@ -371,6 +487,14 @@ func runFilterCase(c *core.Ctx, lfsBin string, fc *filterCase, idx int) (*core.V
 	if input == nil && fc.Content.Len != 0 {
 		return nil, fmt.Errorf("cannot concretise %s", fc.Content.Name)
 	}
+	chain := extChain(fc.Ext)
+	for i, e := range chain {
+		for k, v := range map[string]string{"clean": e.clean, "smudge": e.smudge, "priority": fmt.Sprint(i)} {
+			if r := env.Git(repo, "config", "lfs.extension."+e.name+"."+k, v); !r.OK() {
+				return nil, fmt.Errorf("config extension: %s", r.All())
+			}
+		}
+	}
 	file := filepath.Join(repo, "f.bin")
 	other := []byte(canonPointer(core.Sha([]byte("unrelated")), 777))
 	switch fc.Wt {
@@ -386,6 +510,9 @@ func runFilterCase(c *core.Ctx, lfsBin string, fc *filterCase, idx int) (*core.V
 	gitDir := filepath.Join(repo, ".git")
 	before := gitenv.ListObjects(gitDir)
 	fields := map[string]string{"content": fc.Content.Name, "delivery": fc.Delivery, "frontend": fc.Frontend, "wt": fc.Wt, "branch": fc.Branch}
+	if len(chain) > 0 {
+		fields["ext"] = fc.Ext
+	}
 	mk := func(assertion, why string, extra map[string]interface{}) *core.Violation {
 		d := map[string]interface{}{"why": why, "case": fc, "input_len": len(input), "input_sha256": core.Sha(input)}
 		for k, v := range extra {
@@ -452,6 +579,20 @@ func runFilterCase(c *core.Ctx, lfsBin string, fc *filterCase, idx int) (*core.V
 		}
 		return nil, nil // the object it names is not available: nothing to smudge
 	case "content":
+		if len(chain) > 0 {
+			oid, bad := checkExtPointer(cleaned, input, chain, after)
+			if bad != "" {
+				return mk("pointer-names-sha256-and-length-of-what-is-stored", "with extensions "+fc.Ext+": "+bad, ex), nil
+			}
+			rel := filepath.Join(oid[0:2], oid[2:4], oid)
+			for _, k := range newObjs {
+				if k != rel {
+					return mk("nothing-else-stored", "clean created another object: "+k, ex), nil
+				}
+			}
+			smudgeIn = cleaned
+			break
+		}
 		oid := core.Sha(input)
 		want := canonPointer(oid, len(input))
 		if string(cleaned) != want {
@@ -621,7 +762,7 @@ func runFilterProperty(c *core.Ctx, kind string) {
 	for i := 0; i < len(cases); i += len(cases)/5 + 1 {
 		c.Sample(cases[i])
 	}
-	c.Assume("short reads are produced by writing the chunks with pauses once the filter is blocked in read; git itself chooses the delivery for the git add / git checkout front-end; no pointer extension is configured")
+	c.Assume("short reads are produced by writing the chunks with pauses once the filter is blocked in read; git itself chooses the delivery for the git add / git checkout front-end; pointer extensions are coreutils programs (tr as rot13: same length; gzip: shorter or longer; base64: longer; tr then gzip as a chain of two), run with 4 of the deliveries and work-tree states none / same")
 	_ = io.EOF
 }
 
